@@ -140,6 +140,14 @@ def cases(tier):
         yield "or-right", ("or", a, ("or", b, c))
         yield "any3", ("any", (a, b, c))
         yield "any-nested", ("any", (("any", (a, b)), c))
+    # the bare schema.any (no alternatives declared: accepts everything) as an operand
+    BARE = ("any", None)
+    for x in (INT, NONE, ("any", (INT, STR))):
+        yield "or", ("or", BARE, x)
+        yield "or", ("or", x, BARE)
+        yield "or-left", ("or", ("or", BARE, x), STR)
+        yield "any", ("any", (BARE, x))
+        yield "any", ("any", (x, BARE))
     # every remaining atom kind as a direct alternative (their class-level attributes differ)
     for x in ATOMS:
         for y in (NONE, INT):
